@@ -374,5 +374,9 @@ def r8_sanitizer_on_copies(chk: Check) -> None:
     shared.inplace_sanitizer_rule(chk, "C14.R8")
 
 
+def r9_dead_parameters(chk: Check) -> None:
+    shared.dead_parameter_rule(chk, "C14.R9", ("transport/", "auths.py:", "generation/case.py:", "generation/overrides.py:", "engine/context.py:", "engine/phases/unit/__init__.py:", "pytest/"), "request options on their way to the wire")
+
+
 def rules(tier: str) -> list:  # type: ignore[type-arg]
-    return [r1_overrides, r2_network_config, r3_precedence, r4_set_on_case, r5_lock, r6_strip_auth, r7_merge, r8_sanitizer_on_copies, rfwd_forwarding]
+    return [r1_overrides, r2_network_config, r3_precedence, r4_set_on_case, r5_lock, r6_strip_auth, r7_merge, r8_sanitizer_on_copies, r9_dead_parameters, rfwd_forwarding]
